@@ -91,4 +91,65 @@ def serverNameDomain : List (Bool × List SniSess) :=
 def serverNameModel (i : Bool × List SniSess) : List (Option Name) :=
   sessions (if i.1 then some .explicit else none) i.2
 
+/-! ### negotiator.go: the addresses in the peer's stream header -/
+
+/-- the numbering of the kinds of `from` on the protocol line and in the tables: absent, the
+remote address, another domain of the same length, another domain -/
+def hfromOfCode : Nat → Option HFrom
+  | 0 => some .absent
+  | 1 => some .same
+  | 2 => some .differ
+  | 3 => some .differ
+  | _ => none
+
+/-- every `to` a header can carry: none, or any address of the universe (3 localparts x 5
+domains x 2 resourceparts) -/
+def headerTos : List (Option Addr) :=
+  none :: (product [0, 1, 2] (product [0, 1, 2, 3, 4] [0, 1])).map fun x => some ⟨x.1, x.2.1, x.2.2⟩
+
+/-- (s2s?, the header inside TLS?, kind of `from`, `to`); a foreign `from` with three `to`s -/
+def headerAddressDomain : List (Bool × Bool × Nat × Option Addr) :=
+  product [false, true] (product [false, true]
+    (product [0, 1] headerTos ++ product [2, 3] [none, some ⟨1, 0, 0⟩, some ⟨0, 0, 0⟩]))
+
+/-- a whole `NewSession` (own address `user@d0` or `d0`, remote `d1`, only STARTTLS configured):
+header, STARTTLS required, `<proceed/>`, inside TLS a header and an empty list — the probed
+header is the first or the second one -/
+def headerAddressModel (rr rt sk : Bool) (i : Bool × Bool × Nat × Option Addr) :
+    Option ((List Ev × Outcome) × Addr) :=
+  (hfromOfCode i.2.2.1).map fun f =>
+    let h : Unit := .hdrA f i.2.2.2
+    let st0 : Mask := if i.1 then S2S else 0
+    let inp : Input :=
+      { clear := [[if i.2.1 then .hdr true else h, .list [⟨0, true, true⟩]], [.proceed]],
+        prot := [.unit (if i.2.1 then h else .hdr true), .unit (.list [])],
+        oracle := [(0, ⟨0, false, false⟩)] }
+    let cfg : Cfg := { rr := rr, rt := rt, sk := sk, others := [], tee := false }
+    let r := run cfg ⟨0, 1, none, .netConn⟩ st0 inp 40
+    ((r.1.filter Ev.observable, r.2), localAfter cfg ⟨0, 1, none, .netConn⟩ st0 inp 40)
+
+/-! ### addresses are values: a header parsed into a copy of the stream info -/
+
+def copyUniverse : List Addr :=
+  [⟨1, 0, 0⟩, ⟨1, 1, 0⟩, ⟨2, 0, 0⟩, ⟨0, 0, 0⟩, ⟨0, 1, 0⟩, ⟨1, 4, 0⟩, ⟨1, 0, 1⟩, ⟨0, 4, 1⟩]
+
+def infoCopyDomain : List (Addr × Addr) := product copyUniverse copyUniverse
+
+/-- `newIn := *in; newIn.FromStartElement(header)`: the copy holds the header's address, the value
+it was copied from still holds its own (the model's sessions are values; this is what that means
+for the code) -/
+def infoCopyModel (i : Addr × Addr) : Addr × Addr := (infoTo (some i.2) i.1, i.1)
+
+/-! ### sasl.go: the authentication feature, for every set of mechanisms -/
+
+/-- `xmpp.SASL(…)`: requires a secured stream, prohibited once authenticated — whatever
+mechanisms it is configured with -/
+def saslFeature (mechanisms : Nat) : Feature := ⟨7, Secure, Authn, true⟩
+
+/-- every non-empty subset of five mechanisms -/
+def saslMaskDomain : List Nat := List.range' 1 31
+
+def saslMaskModel (m : Nat) : Nat × Nat × Bool :=
+  ((saslFeature m).nec.toNat, (saslFeature m).proh.toNat, (saslFeature m).negotiable)
+
 end XmppModel.StartTLS
